@@ -353,6 +353,77 @@ def c01g(ctx):
         ctx.fail(o, "(program)", "expected TrackedEngine::{start,end}_unordered_callee_group, found %d" % n)
 
 
+def c01h(ctx):
+    """Every stored fingerprint is the hash of the value that is stored next to it."""
+    prog = ctx.prog
+    o = ctx.ob("C01.h", "clean_query/tfc-fingerprint-of-new-tfc", "K1+K5", "the stored transitive-firewall fingerprint is the hash of the firewall set stored with it")
+    b = ctx.touch(prog.coroutine_of("Snapshot::clean_query"))
+    st_tfc = b.assigns(lambda st: any(e.startswith("f:transitive_firewall_callees#") for e in st["lhs"][1]))
+    st_fp = b.assigns(lambda st: any(e.startswith("f:transitive_firewall_callees_fingerprint#") for e in st["lhs"][1]))
+    hs = [s for s in b.calls_to(r"Engine<C>>::hash$|Engine::<C>::hash$") if "transitive_firewall_callees" in df.access_path(b, s.node["args"][1])]
+    o.sites = len(st_tfc) + len(st_fp) + len(hs)
+    if len(st_tfc) != 1 or len(st_fp) != 1 or len(hs) != 1:
+        ctx.fail(o, Site(b, 0, 0), "anchors missing in clean_query (store tfc=%d, store fingerprint=%d, hash(tfc)=%d)" % (len(st_tfc), len(st_fp), len(hs)))
+    else:
+        if st_tfc[0].node["lhs"][0] != st_fp[0].node["lhs"][0]:
+            ctx.fail(o, st_fp[0], "fingerprint and firewall set are stored into different NodeInfo values")
+        # the hashed place is the field of the same local, and the new set is stored into it before it is hashed
+        hl = df.access_path(b, hs[0].node["args"][1])
+        if not b.site_dominates(st_tfc[0], hs[0]):
+            ctx.fail(o, hs[0], "clean_query hashes the firewall set before storing the new one: the node keeps the fingerprint of its OLD transitive-firewall set, so callers "
+                     "comparing fingerprints never learn about a new firewall dependency and skip repairing it")
+        if not any(x.kind == "call" and x.site == hs[0] for x in df.origins_of_operand(b, st_fp[0].node["rv"]["op"])) if st_fp[0].node["rv"]["k"] == "use" else True:
+            ctx.fail(o, st_fp[0], "the stored fingerprint is not the result of hashing the firewall set")
+        if not any(x.kind == "param" for x in df.origins_of_operand(b, st_tfc[0].node["rv"]["op"])) if st_tfc[0].node["rv"]["k"] == "use" else True:
+            ctx.fail(o, st_tfc[0], "the firewall set stored is not the `new_tfc` argument")
+    for fn in ("Snapshot::set_computed", "Snapshot::set_computed_input"):
+        o = ctx.ob("C01.h", "%s/node-info-fingerprints" % fn, "K5", "NodeInfo is built with the hash of the firewall set (and of the value) stored next to it")
+        b = ctx.touch(prog.coroutine_of(fn))
+        ni = b.calls_to(r"database::NodeInfo::new$")
+        o.sites = len(ni)
+        if len(ni) != 1:
+            ctx.fail(o, Site(b, 0, 0), "expected one NodeInfo::new in %s" % fn)
+            continue
+        a = ni[0].node["args"]
+        fp_o = df.origins_of_operand(b, a[1])
+        hcalls = [x.site for x in fp_o if x.kind == "call" and re.search(r"::hash$", x.callee() or "")]
+        if len(hcalls) != 1:
+            ctx.fail(o, ni[0], "the firewall fingerprint given to NodeInfo::new is not a hash")
+            continue
+        hashed = {x.key() for x in df.origins_of_operand(b, hcalls[0].node["args"][1]) if x.kind in ("param", "call")}
+        stored = {x.key() for x in df.origins_of_operand(b, a[2]) if x.kind in ("param", "call")}
+        if not (hashed & stored):
+            ctx.fail(o, ni[0], "%s stores a firewall set together with the fingerprint of a different value" % fn)
+        if fn.endswith("set_computed"):
+            # value fingerprint: either handed in (already computed from this value in execute_query) or hash(&query_value)
+            vo = df.origins_of_operand(b, a[0])
+            vh = [x.site for x in vo if x.kind == "call" and re.search(r"::hash$", x.callee() or "")]
+            if vh:
+                hv = {x.key() for x in df.origins_deep(prog, b, vh[0].node["args"][1]) if x.kind == "param"}
+                qv = [s_ for s_ in b.aggregates(r"database::QueryResult$")]
+                sv = {x.key() for x in df.origins_of_operand(b, qv[0].node["rv"]["ops"][0]) if x.kind == "param"} if qv else set()
+                if not (hv & sv):
+                    ctx.fail(o, ni[0], "the value fingerprint is computed from something other than the value that is stored")
+    # execute_query: the fingerprint handed to set_computed is the hash of the value handed to it
+    o = ctx.ob("C01.h", "execute_query/fingerprint-of-published-value", "K5", "the fingerprint compared and published by execute_query is the hash of the value it publishes")
+    eq = [x for x in prog.find(r"^Snapshot::execute_query::") if x.is_coroutine and x.calls_to(r"::computing_lock_to_computed$")]
+    if len(eq) != 1:
+        ctx.fail(o, "(program)", "anchor missing: publish block of execute_query")
+    else:
+        b = ctx.touch(eq[0])
+        cc = b.calls_to(r"::computing_lock_to_computed$")[0]
+        o.sites = 1
+        fo = [x.site for x in df.origins_of_operand(b, cc.node["args"][3]) if x.kind == "call" and re.search(r"::hash$", x.callee() or "")]
+        if len(fo) != 1:
+            ctx.fail(o, cc, "the fingerprint handed to computing_lock_to_computed is not a single hash")
+        else:
+            hv = {x.key() for x in df.origins_deep(prog, b, fo[0].node["args"][1])}
+            pv = {x.key() for x in df.origins_deep(prog, b, cc.node["args"][2])}
+            if not (hv & pv):
+                ctx.fail(o, cc, "execute_query publishes a value together with the fingerprint of another value")
+
+
 def run(ctx):
+    ctx.run_clause("C01.h", c01h)
     for c, f in (("C01.a", c01a), ("C01.b", c01b), ("C01.c", c01c), ("C01.d", c01d), ("C01.e", c01e), ("C01.f", c01f), ("C01.g", c01g)):
         ctx.run_clause(c, f)
